@@ -19,6 +19,11 @@ import (
 	"golang.org/x/tools/go/ssa"
 )
 
+func isBool(t types.Type) bool {
+	b, ok := t.Underlying().(*types.Basic)
+	return ok && b.Kind() == types.Bool
+}
+
 func isCleanCall(ins ssa.Instruction) (ssa.CallInstruction, bool) {
 	ci, ok := ins.(ssa.CallInstruction)
 	if !ok {
@@ -503,139 +508,167 @@ func rulePrepareResponse(r *Run) {
 	if fn == nil || len(fn.Params) != 2 {
 		return
 	}
-	resp := fn.Params[1]
-	isRespData := func(v ssa.Value) bool {
-		ld, ok := unwrap(v).(*ssa.UnOp)
-		if !ok || ld.Op != token.MUL {
-			return false
-		}
-		fa, ok := ld.X.(*ssa.FieldAddr)
-		return ok && fa.X == ssa.Value(resp) && fieldOf(fa) != nil && fieldOf(fa).Name() == "Data"
-	}
-	// Clean(resp.Data) dominating at: the map is scrubbed in place, so every later read of
-	// resp.Data sees the scrubbed map
-	cleanedBefore := func(at ssa.Instruction) bool {
-		for _, ins := range allInstrs(fn) {
-			ci, ok := isCleanCall(ins)
-			if !ok || len(ci.Common().Args) < 2 {
-				continue
-			}
-			if isRespData(ci.Common().Args[1]) && instrDominates(ci, at) && r.cleanReceiverOK(ci) {
-				return true
-			}
-		}
-		return false
-	}
 	execFns := map[*ssa.Function]bool{}
 	for _, f := range r.RoleFuncs("executorFn") {
 		execFns[f] = true
 	}
-	// fromExecutor: v is the data result of a call that can only run a per-event executor
-	fromExecutor := func(v ssa.Value) bool {
-		ex, ok := unwrap(v).(*ssa.Extract)
-		if !ok || ex.Index != 0 {
-			return false
-		}
-		call, ok := ex.Tuple.(*ssa.Call)
-		if !ok {
-			return false
-		}
-		n := 0
-		for _, e := range r.P.CG.Out[fn] {
-			if e.Site == ssa.CallInstruction(call) {
-				if !execFns[e.Callee] {
-					return false
-				}
-				n++
+	n := 0
+	// judge looks at what f returns. f is prepareResponse, or a function of the module
+	// prepareResponse returns the result of (`return se.stitch(resp)`), which is handed the
+	// upstream response as its parameter resp (nil: it is not handed it); cleanedOnEntry: a
+	// Clean(resp.Data) has already run on every path to the call.
+	var judge func(f *ssa.Function, resp *ssa.Parameter, cleanedOnEntry bool, depth int)
+	judge = func(f *ssa.Function, resp *ssa.Parameter, cleanedOnEntry bool, depth int) {
+		fname := fnName(f)
+		isRespData := func(v ssa.Value) bool {
+			ld, ok := unwrap(v).(*ssa.UnOp)
+			if !ok || ld.Op != token.MUL || resp == nil {
+				return false
 			}
+			fa, ok := ld.X.(*ssa.FieldAddr)
+			return ok && fa.X == ssa.Value(resp) && fieldOf(fa) != nil && fieldOf(fa).Name() == "Data"
 		}
-		if _, unresolved := r.P.CG.Unresolved[call]; unresolved {
+		// Clean(resp.Data) dominating at: the map is scrubbed in place, so every later read of
+		// resp.Data sees the scrubbed map
+		cleanedBefore := func(at ssa.Instruction) bool {
+			if cleanedOnEntry {
+				return true
+			}
+			for _, ins := range allInstrs(f) {
+				ci, ok := isCleanCall(ins)
+				if !ok || len(ci.Common().Args) < 2 {
+					continue
+				}
+				if isRespData(ci.Common().Args[1]) && instrDominates(ci, at) && r.cleanReceiverOK(ci) {
+					return true
+				}
+			}
 			return false
 		}
-		return n > 0
-	}
-	var dataOK func(v ssa.Value, at ssa.Instruction, depth int) (bool, string)
-	dataOK = func(v ssa.Value, at ssa.Instruction, depth int) (bool, string) {
-		v = unwrap(v)
-		switch {
-		case isNilConst(v):
-			return true, "no data"
-		case fromExecutor(v):
-			return true, "data produced by the per-event executor, which scrubs what it returns"
-		case isRespData(v):
-			if cleanedBefore(at) {
-				return true, "Clean(resp.Data) dominates this return"
+		// fromExecutor: v is the data result of a call that can only run a per-event executor
+		fromExecutor := func(v ssa.Value) bool {
+			ex, ok := unwrap(v).(*ssa.Extract)
+			if !ok || ex.Index != 0 {
+				return false
+			}
+			call, ok := ex.Tuple.(*ssa.Call)
+			if !ok {
+				return false
+			}
+			k := 0
+			for _, e := range r.P.CG.Out[f] {
+				if e.Site == ssa.CallInstruction(call) {
+					if !execFns[e.Callee] {
+						return false
+					}
+					k++
+				}
+			}
+			if _, unresolved := r.P.CG.Unresolved[call]; unresolved {
+				return false
+			}
+			return k > 0
+		}
+		var dataOK func(v ssa.Value, at ssa.Instruction, depth int) (bool, string)
+		dataOK = func(v ssa.Value, at ssa.Instruction, depth int) (bool, string) {
+			v = unwrap(v)
+			switch {
+			case isNilConst(v):
+				return true, "no data"
+			case fromExecutor(v):
+				return true, "data produced by the per-event executor, which scrubs what it returns"
+			case isRespData(v):
+				if cleanedBefore(at) {
+					return true, "Clean(resp.Data) dominates this return"
+				}
+				return false, ""
+			}
+			if p, ok := v.(*ssa.Phi); ok && depth < 4 {
+				for _, e := range p.Edges {
+					if ok, _ := dataOK(e, at, depth+1); !ok {
+						return false, ""
+					}
+				}
+				return true, "every alternative is scrubbed data"
 			}
 			return false, ""
 		}
-		if p, ok := v.(*ssa.Phi); ok && depth < 4 {
-			for _, e := range p.Edges {
-				if ok, _ := dataOK(e, at, depth+1); !ok {
-					return false, ""
-				}
+		for _, ret := range returnsOf(f) {
+			var cands []ssa.Value
+			if p, ok := retVals(ret)[0].(*ssa.Phi); ok {
+				cands = append(cands, p.Edges...)
+			} else {
+				cands = []ssa.Value{retVals(ret)[0]}
 			}
-			return true, "every alternative is scrubbed data"
-		}
-		return false, ""
-	}
-	n := 0
-	for _, ret := range returnsOf(fn) {
-		var cands []ssa.Value
-		if p, ok := retVals(ret)[0].(*ssa.Phi); ok {
-			cands = append(cands, p.Edges...)
-		} else {
-			cands = []ssa.Value{retVals(ret)[0]}
-		}
-		for _, v := range cands {
-			v = unwrap(v)
-			site := r.P.pos(retPos(ret))
-			switch x := v.(type) {
-			case *ssa.Parameter:
-				if x != resp {
-					r.Bad(rule, name, "response returned", site, "prepareResponse returns something the rule cannot trace to scrubbed data")
-					continue
-				}
-				n++
-				r.Check(cleanedBefore(ret), rule, name, "upstream response forwarded", site,
-					"Clean(resp.Data) dominates the return of the upstream response",
-					"an upstream event is forwarded to the client without ScrubFields.Clean on its data")
-			case *ssa.Alloc:
-				// a Response built here: what is stored into its Data field
-				n++
-				ok, why := true, "the new Response carries no data"
-				for _, ins := range allInstrs(fn) {
-					st, isSt := ins.(*ssa.Store)
-					if !isSt {
+			for _, v := range cands {
+				v = unwrap(v)
+				site := r.P.pos(retPos(ret))
+				switch x := v.(type) {
+				case *ssa.Parameter:
+					if x != resp || resp == nil {
+						r.Bad(rule, fname, "response returned", site, fname+" returns something the rule cannot trace to scrubbed data")
 						continue
 					}
-					fa, isFa := st.Addr.(*ssa.FieldAddr)
-					if !isFa || fa.X != ssa.Value(x) {
-						if isSt && st.Addr == ssa.Value(x) {
-							// `*new = *resp`: a whole-struct copy
-							ok, why = cleanedBefore(ret), "copy of the upstream response after Clean(resp.Data)"
+					n++
+					r.Check(cleanedBefore(ret), rule, fname, "upstream response forwarded", site,
+						"Clean(resp.Data) dominates the return of the upstream response",
+						"an upstream event is forwarded to the client without ScrubFields.Clean on its data")
+				case *ssa.Alloc:
+					// a Response built here: what is stored into its Data field
+					n++
+					ok, why := true, "the new Response carries no data"
+					for _, ins := range allInstrs(f) {
+						st, isSt := ins.(*ssa.Store)
+						if !isSt {
+							continue
 						}
+						fa, isFa := st.Addr.(*ssa.FieldAddr)
+						if !isFa || fa.X != ssa.Value(x) {
+							if isSt && st.Addr == ssa.Value(x) {
+								// `*new = *resp`: a whole-struct copy
+								ok, why = cleanedBefore(ret), "copy of the upstream response after Clean(resp.Data)"
+							}
+							continue
+						}
+						if fieldOf(fa) == nil || fieldOf(fa).Name() != "Data" {
+							continue
+						}
+						if o, w := dataOK(st.Val, ret, 0); o {
+							why = w
+						} else {
+							ok = false
+						}
+					}
+					r.Check(ok, rule, fname, "new response returned", site,
+						"the Data of the Response built here is scrubbed: "+why,
+						fname+" returns a new Response whose Data is the upstream event's data (or something else the rule cannot trace to the per-event executor) without ScrubFields.Clean on every path: helper id/__typename fields fetched for stitching reach the subscriber")
+				case *ssa.Call:
+					// the result of a function of the module: judged by what that function returns
+					var d *ssa.Function
+					if sc := x.Call.StaticCallee(); sc != nil {
+						d = r.P.declared(sc)
+					}
+					if d == nil || !inModule(d) || d.Blocks == nil || d == f || depth >= 3 || d.Signature.Results().Len() != 1 || len(d.Params) != len(x.Call.Args) {
+						r.Bad(rule, fname, "response returned", site, fname+" returns something the rule cannot trace to scrubbed data ("+v.String()+")")
 						continue
 					}
-					if fieldOf(fa) == nil || fieldOf(fa).Name() != "Data" {
+					var handed *ssa.Parameter
+					for k, a := range x.Call.Args {
+						if resp != nil && unwrap(a) == ssa.Value(resp) {
+							handed = d.Params[k]
+						}
+					}
+					judge(d, handed, handed != nil && cleanedBefore(x), depth+1)
+				default:
+					if isNilConst(v) {
 						continue
 					}
-					if o, w := dataOK(st.Val, ret, 0); o {
-						why = w
-					} else {
-						ok = false
-					}
+					r.Bad(rule, fname, "response returned", site, fname+" returns something the rule cannot trace to scrubbed data ("+v.String()+")")
 				}
-				r.Check(ok, rule, name, "new response returned", site,
-					"the Data of the Response built here is scrubbed: "+why,
-					"prepareResponse returns a new Response whose Data is the upstream event's data (or something else the rule cannot trace to the per-event executor) without ScrubFields.Clean on every path: helper id/__typename fields fetched for stitching reach the subscriber")
-			default:
-				if isNilConst(v) {
-					continue
-				}
-				r.Bad(rule, name, "response returned", site, "prepareResponse returns something the rule cannot trace to scrubbed data ("+v.String()+")")
 			}
 		}
 	}
+	judge(fn, fn.Params[1], false, 0)
 	r.AtLeast(rule, "returns of prepareResponse", n, 1)
 }
 
@@ -675,23 +708,181 @@ func ruleRespondOnce(r *Run) {
 		return res
 	}
 	var unclear []string
-	var weightIn func(caller *ssa.Function, depth int) func(ssa.Instruction) int
+	type edgeAt struct {
+		b *ssa.BasicBlock
+		k int
+	}
+	// told: a helper whose number of writes differs between its paths but is told to the caller
+	// by one of its results — `rs, ok := parseOrReject(w, r); if !ok { return }` with a helper
+	// that answers on the paths returning false and is silent on those returning true. n[c] is
+	// the exact number of writes on the paths of class c (0: false / nil, 1: true / non-nil).
+	type told struct {
+		idx int
+		n   [2]int
+	}
+	toldHelpers := map[string]string{}
+	var count func(f *ssa.Function, depth int, skipRet func(*ssa.Return) bool) (mn, mx int, cyc bool, ends int)
 	// exact number of writes of a helper, or -1
-	var exact func(f *ssa.Function, depth int) int
-	exact = func(f *ssa.Function, depth int) int {
+	exact := func(f *ssa.Function, depth int) int {
 		if depth > 4 || f.Blocks == nil {
 			return -1
 		}
-		mn, mx, cyc, _ := pathCount(f.Blocks[0], 0, nil, weightIn(f, depth+1))
+		mn, mx, cyc, _ := count(f, depth+1, nil)
 		if cyc || mn != mx {
 			return -1
 		}
 		return mn
 	}
-	weightIn = func(caller *ssa.Function, depth int) func(ssa.Instruction) int {
-		return func(i ssa.Instruction) int {
-			ci, ok := i.(ssa.CallInstruction)
+	// classOf: the class of the idx-th result of a return, or -1
+	classOf := func(ret *ssa.Return, idx int) int {
+		vals := retVals(ret)
+		if idx >= len(vals) {
+			return -1
+		}
+		v := vals[idx]
+		if isBool(v.Type()) {
+			if c, ok := v.(*ssa.Const); ok && c.Value != nil {
+				if c.Value.ExactString() == "true" {
+					return 1
+				}
+				return 0
+			}
+			return -1
+		}
+		if !isErrorish(v.Type()) {
+			return -1
+		}
+		if isNilConst(v) {
+			return 0
+		}
+		for _, t := range failureTests(v) {
+			if len(t.fail.Preds) == 1 && (t.fail == ret.Block() || t.fail.Dominates(ret.Block())) {
+				return 1
+			}
+		}
+		return -1
+	}
+	toldBy := func(f *ssa.Function, depth int) *told {
+		if depth > 4 || f.Blocks == nil {
+			return nil
+		}
+		res := f.Signature.Results()
+		for idx := 0; idx < res.Len(); idx++ {
+			seen := [2]bool{}
+			ok := true
+			for _, ret := range returnsOf(f) {
+				c := classOf(ret, idx)
+				if c < 0 {
+					ok = false
+					break
+				}
+				seen[c] = true
+			}
+			if !ok || !seen[0] || !seen[1] {
+				continue
+			}
+			t := &told{idx: idx}
+			for c := 0; c < 2 && ok; c++ {
+				other := 1 - c
+				mn, mx, cyc, _ := count(f, depth+1, func(ret *ssa.Return) bool { return classOf(ret, idx) == other })
+				if cyc || mn != mx {
+					ok = false
+				}
+				t.n[c] = mn
+			}
+			if ok {
+				return t
+			}
+		}
+		return nil
+	}
+	// the branch on the told result: the If that ends the block of the call (or a block reached
+	// from it in a straight line), whose condition is that result and nothing else. succ[k] is
+	// the class known on the k-th edge.
+	branchOn := func(c *ssa.Call, idx int) (*ssa.If, [2]int, bool) {
+		var none [2]int
+		var ex *ssa.Extract
+		for _, ref := range *c.Referrers() {
+			if e, ok := ref.(*ssa.Extract); ok && e.Index == idx {
+				if ex != nil {
+					return nil, none, false
+				}
+				ex = e
+			}
+		}
+		if ex == nil {
+			return nil, none, false
+		}
+		b := c.Block()
+		for len(b.Succs) == 1 && len(b.Succs[0].Preds) == 1 && b.Succs[0] != c.Block() {
+			b = b.Succs[0]
+		}
+		iff, ok := b.Instrs[len(b.Instrs)-1].(*ssa.If)
+		if !ok {
+			return nil, none, false
+		}
+		cond, flip := iff.Cond, false
+		for {
+			u, ok := cond.(*ssa.UnOp)
+			if !ok || u.Op != token.NOT {
+				break
+			}
+			cond, flip = u.X, !flip
+		}
+		succ := [2]int{1, 0}
+		switch x := cond.(type) {
+		case *ssa.Extract:
+			if x != ex || !isBool(x.Type()) {
+				return nil, none, false
+			}
+		case *ssa.BinOp:
+			var subj ssa.Value
+			switch {
+			case isNilConst(x.Y):
+				subj = x.X
+			case isNilConst(x.X):
+				subj = x.Y
+			}
+			if subj != ssa.Value(ex) || x.Op != token.NEQ && x.Op != token.EQL {
+				return nil, none, false
+			}
+			if x.Op == token.EQL {
+				flip = !flip
+			}
+		default:
+			return nil, none, false
+		}
+		if flip {
+			succ = [2]int{0, 1}
+		}
+		return iff, succ, true
+	}
+	count = func(caller *ssa.Function, depth int, skipRet func(*ssa.Return) bool) (int, int, bool, int) {
+		// calls whose number of writes is read off the branch on their result
+		onEdge := map[edgeAt]int{}
+		byBranch := map[ssa.Instruction]bool{}
+		for _, e := range r.P.CG.Out[caller] {
+			c, isCall := e.Site.(*ssa.Call)
+			if !isCall || e.Kind != "static" || isPrimitive(c.Common()) || !reachesWrite(e.Callee) || exact(e.Callee, depth) >= 0 {
+				continue
+			}
+			t := toldBy(e.Callee, depth)
+			if t == nil {
+				continue
+			}
+			iff, succ, ok := branchOn(c, t.idx)
 			if !ok {
+				continue
+			}
+			byBranch[c] = true
+			toldHelpers[fnName(e.Callee)] = fmt.Sprintf("%s, whose result no. %d tells what it did (false/nil: %d write(s), true/non-nil: %d) and is branched on right after the call", fnName(e.Callee), t.idx+1, t.n[0], t.n[1])
+			for k := 0; k < 2; k++ {
+				onEdge[edgeAt{iff.Block(), k}] += t.n[succ[k]]
+			}
+		}
+		weight := func(i ssa.Instruction) int {
+			ci, ok := i.(ssa.CallInstruction)
+			if !ok || byBranch[i] {
 				return 0
 			}
 			if isPrimitive(ci.Common()) {
@@ -717,37 +908,44 @@ func ruleRespondOnce(r *Run) {
 			}
 			return total
 		}
+		return pathCountX(caller.Blocks[0], 0, nil, weight, func(b *ssa.BasicBlock, k int) int { return onEdge[edgeAt{b, k}] }, skipRet)
 	}
-	mn, mx, cyc, ends := pathCount(fn.Blocks[0], 0, nil, weightIn(fn, 0))
+	mn, mx, cyc, ends := count(fn, 0, nil)
 	if len(unclear) > 0 {
 		sort.Strings(unclear)
 		r.Bad(rule, name, "responses per request", r.P.pos(fn.Pos()), "a response write is reachable through "+unclear[0]+", and the rule cannot tell how many times it writes (not a plain helper that writes exactly once on each of its paths): exactly one of emitError/Emit is required on every path of the handler")
 	} else if cyc || mn != 1 || mx != 1 {
 		r.Bad(rule, name, "responses per request", r.P.pos(fn.Pos()), fmt.Sprintf("a path through the handler writes the response %d..%d times (cyclic=%v); exactly one of emitError/Emit is required on every path", mn, mx, cyc))
 	} else {
-		r.OK(rule, name, "responses per request", r.P.pos(fn.Pos()), fmt.Sprintf("each of the %d exit paths calls exactly one of emitError / Results.Emit (directly or through a helper that writes exactly once)", ends))
+		how := "directly or through a helper that writes exactly once"
+		if len(toldHelpers) > 0 {
+			var hs []string
+			for _, h := range toldHelpers {
+				hs = append(hs, h)
+			}
+			sort.Strings(hs)
+			how += ", or through " + strings.Join(hs, "; ")
+		}
+		r.OK(rule, name, "responses per request", r.P.pos(fn.Pos()), fmt.Sprintf("each of the %d exit paths calls exactly one of emitError / Results.Emit (%s)", ends, how))
 	}
 	// status codes: 422 only from the Parse-failure branch, via emitError. The emitError calls
 	// are looked for in the handler and in the helpers it calls directly (status handed on as a
 	// constant or as the helper's parameter); where such a call sits is judged at the call site
 	// inside the handler.
 	type emitSite struct {
-		at   ssa.Instruction // the call inside queryHandler
+		at   []ssa.Instruction // the chain of calls that leads to it: in queryHandler, in the helper called there, …, the emitError call itself
 		call ssa.CallInstruction
 		code ssa.Value
 	}
 	var emits []emitSite
-	var collect func(f *ssa.Function, at ssa.Instruction, bind map[*ssa.Parameter]ssa.Value, depth int)
-	collect = func(f *ssa.Function, at ssa.Instruction, bind map[*ssa.Parameter]ssa.Value, depth int) {
+	var collect func(f *ssa.Function, chain []ssa.Instruction, bind map[*ssa.Parameter]ssa.Value, depth int)
+	collect = func(f *ssa.Function, chain []ssa.Instruction, bind map[*ssa.Parameter]ssa.Value, depth int) {
 		for _, ins := range allInstrs(f) {
 			ci, ok := ins.(ssa.CallInstruction)
 			if !ok {
 				continue
 			}
-			here := at
-			if f == fn {
-				here = ins
-			}
+			here := append(append([]ssa.Instruction{}, chain...), ins)
 			if calleeName(ci.Common()) == modPath+".emitError" && len(ci.Common().Args) >= 2 {
 				code := ci.Common().Args[1]
 				if p, isP := code.(*ssa.Parameter); isP && bind[p] != nil {
@@ -777,13 +975,9 @@ func ruleRespondOnce(r *Run) {
 		}
 	}
 	collect(fn, nil, nil, 0)
-	for _, es := range emits {
-		ins := es.at
-		code, isC := es.code.(*ssa.Const)
-		good := isC && code.Value != nil && code.Value.ExactString() == "422"
-		// must be on the failure side of requests.Parse
-		onFail := false
-		for _, i2 := range allInstrs(fn) {
+	// on the failure side of a requests.Parse call of its own function
+	afterFailedParse := func(ins ssa.Instruction) bool {
+		for _, i2 := range allInstrs(ins.Parent()) {
 			c2, ok := i2.(*ssa.Call)
 			if !ok || calleeName(&c2.Call) != modPath+"/requests.Parse" {
 				continue
@@ -792,10 +986,23 @@ func ruleRespondOnce(r *Run) {
 				if ex, ok := ref.(*ssa.Extract); ok && isErrorish(ex.Type()) {
 					for _, t := range failureTests(ex) {
 						if len(t.fail.Preds) == 1 && (t.fail == ins.Block() || t.fail.Dominates(ins.Block())) {
-							onFail = true
+							return true
 						}
 					}
 				}
+			}
+		}
+		return false
+	}
+	for _, es := range emits {
+		code, isC := es.code.(*ssa.Const)
+		good := isC && code.Value != nil && code.Value.ExactString() == "422"
+		// must be on the failure side of requests.Parse: the emitError call itself when the
+		// decoding sits in the same helper, or one of the calls that lead to it
+		onFail := false
+		for _, at := range es.at {
+			if afterFailedParse(at) {
+				onFail = true
 			}
 		}
 		if good && onFail {
@@ -808,21 +1015,63 @@ func ruleRespondOnce(r *Run) {
 	// its own parameter, not something worked out from the error (a rule such as "anything
 	// that is not a DecodeError is our own failure: 500" turns a malformed request into a 500
 	// whenever an error reaches it unmarked)
+	// The header may be written by a helper emitError shares with Emit (`writeJSON(w, code, resp)`):
+	// the status is followed from emitError's parameter through the arguments of the module
+	// functions it calls to the WriteHeader call, wherever that sits.
 	if ee := r.P.Fn("pebbles.emitError"); ee != nil && len(ee.Params) >= 2 {
-		for _, ins := range allInstrs(ee) {
-			ci, ok := ins.(ssa.CallInstruction)
-			if !ok || !strings.HasSuffix(calleeName(ci.Common()), "ResponseWriter.WriteHeader") && !strings.HasSuffix(calleeName(ci.Common()), "ResponseWriter).WriteHeader") {
-				continue
+		asked := ee.Params[1]
+		found := 0
+		onPath := map[*ssa.Function]bool{}
+		var follow func(f *ssa.Function, bind map[ssa.Value]ssa.Value, depth int)
+		follow = func(f *ssa.Function, bind map[ssa.Value]ssa.Value, depth int) {
+			if onPath[f] || depth > 4 {
+				return
 			}
-			args := ci.Common().Args
-			if len(args) == 0 {
-				continue
+			onPath[f] = true
+			defer delete(onPath, f)
+			resolve := func(v ssa.Value) ssa.Value {
+				v = viaCell(unwrap(v))
+				if b, ok := bind[v]; ok {
+					return b
+				}
+				return v
 			}
-			v := viaCell(unwrap(args[len(args)-1]))
-			_, isParam := v.(*ssa.Parameter)
-			r.Check(isParam, rule, fnName(ee), "status written is the status asked for", r.P.pos(ins.Pos()),
-				"WriteHeader receives emitError's own code parameter",
-				"emitError works out the status itself instead of writing the one its caller chose: the 422 of an undecodable request can turn into another status depending on what kind of error value reached it")
+			for _, ins := range allInstrs(f) {
+				ci, ok := ins.(ssa.CallInstruction)
+				if !ok {
+					continue
+				}
+				args := ci.Common().Args
+				if cn := calleeName(ci.Common()); strings.HasSuffix(cn, "ResponseWriter.WriteHeader") || strings.HasSuffix(cn, "ResponseWriter).WriteHeader") {
+					if len(args) == 0 {
+						continue
+					}
+					found++
+					good, bad := "WriteHeader receives emitError's own code parameter", "emitError works out the status itself instead of writing the one its caller chose: the 422 of an undecodable request can turn into another status depending on what kind of error value reached it"
+					if f != ee {
+						good = "WriteHeader in " + fnName(f) + " receives emitError's own code parameter, handed on unchanged"
+						bad = "the status " + fnName(f) + " writes for emitError is not the code emitError was given, handed on unchanged: " + bad
+					}
+					r.Check(resolve(args[len(args)-1]) == ssa.Value(asked), rule, fnName(ee), "status written is the status asked for", r.P.pos(ins.Pos()), good, bad)
+					continue
+				}
+				for _, e := range r.P.CG.Out[f] {
+					if e.Site != ci || e.Kind != "static" || e.Callee.Blocks == nil {
+						continue
+					}
+					b2 := map[ssa.Value]ssa.Value{}
+					for k, a := range args {
+						if k < len(e.Callee.Params) {
+							b2[e.Callee.Params[k]] = resolve(a)
+						}
+					}
+					follow(e.Callee, b2, depth+1)
+				}
+			}
+		}
+		follow(ee, map[ssa.Value]ssa.Value{}, 0)
+		if found == 0 {
+			r.Bad(rule, fnName(ee), "status written is the status asked for", r.P.pos(ee.Pos()), "no WriteHeader call is found in emitError or in the module functions it calls: the status its caller chose is not written (the answer goes out as 200, or with a status the rule cannot see)")
 		}
 	}
 }
